@@ -32,21 +32,36 @@ Class(c) == CASE c = "len" -> "feature length differs from the event count"
               [] c = "extlink" -> "external link"
               [] c \in {"flowzero", "pixneg", "chwzero"} -> "non-positive set-up value"
 
-VARIABLES path, corr, copied
+\* which image-shaped features the written dataset holds (the ROI metadata
+\* must agree with every one of them, whichever are present)
+ImageShaped == {"image", "image_bg", "mask"}
+FullContent == {"image", "mask"}
+
+VARIABLES path, corr, copied, content
 
 Init == /\ path \in WritePaths
         /\ corr \in {S \in SUBSET Corruptions : Cardinality(S) <= 2}
         /\ copied \in {"no", "compress", "repack"}
+        /\ content \in SUBSET ImageShaped
+        \* the content dimension is explored for the corruptions that depend
+        \* on it, on the write paths that keep image data, without copies
+        /\ content # FullContent =>
+              /\ corr \subseteq {"roi", "len", "unknown"}
+              /\ copied = "no"
+              /\ path \in {"writer", "export", "export-filtered", "compress", "split-part"}
+        \* an ROI contradiction needs image-shaped data
+        /\ ("roi" \in corr) => content # {}
         \* corruptions need the respective data: a condensed file has no image / trace
         /\ (path = "condense") => corr \cap {"roi", "samples", "chcount", "lasers"} = {}
         /\ (copied # "no") => corr \subseteq MetaCorruptions
         \* two corruptions of the same key do not both show
         /\ ~({"chwzero", "missing"} \subseteq corr)
-Next == UNCHANGED <<path, corr, copied>>
+Next == UNCHANGED <<path, corr, copied, content>>
 
 ExpectedClasses == {Class(c) : c \in corr}
 Closure == corr = {} => ExpectedClasses = {}
 
 Emit == PrintT(<<"H", ToJson([path |-> path, corr |-> corr, copied |-> copied,
+                              content |-> content,
                               expected |-> ExpectedClasses])>>)
 =============================================================================
